@@ -55,6 +55,7 @@ func (_this *Reader) Init(config *configuration.Configuration) {
 
 func (_this *Reader) SetReader(reader io.Reader) {
 	_this.adapter.Init(reader)
+	_this.adapter.onBytesRead = _this.markBytesRead
 	_this.reader = &_this.adapter
 	_this.bytesRead = 0
 }
@@ -63,7 +64,6 @@ func (_this *Reader) ReadUint8() uint8 {
 	if _, err := _this.reader.Read(_this.buffer[:1]); err != nil {
 		_this.unexpectedError(err)
 	}
-	_this.markBytesRead(1)
 	return _this.buffer[0]
 }
 
@@ -95,7 +95,6 @@ func (_this *Reader) ReadTypeOrEOF() cbeTypeField {
 		_this.unexpectedError(err)
 	}
 
-	_this.markBytesRead(1)
 	return cbeTypeField(_this.buffer[0])
 }
 
@@ -212,6 +211,9 @@ func (_this *Reader) ReadIdentifier() []byte {
 type readerAdapter struct {
 	reader io.Reader
 	err    error
+	// Called for every delivered byte count, so that bytes consumed by the
+	// helper decoders are counted too.
+	onBytesRead func(byteCount int)
 }
 
 const maxConsecutiveEmptyReads = 100
@@ -233,6 +235,9 @@ func (_this *readerAdapter) Read(p []byte) (n int, err error) {
 		if n > 0 {
 			// Report the error (if any) on the next call, after the data
 			_this.err = err
+			if _this.onBytesRead != nil {
+				_this.onBytesRead(n)
+			}
 			return n, nil
 		}
 		if err != nil {
@@ -278,7 +283,6 @@ func (_this *Reader) readIntoBuffer(count int) {
 		if bytesRead, err := _this.reader.Read(dst); err != nil {
 			_this.unexpectedError(err)
 		} else {
-			_this.markBytesRead(bytesRead)
 			dst = dst[bytesRead:]
 		}
 	}
